@@ -122,6 +122,56 @@ pub fn run(ctx: &mut Ctx) {
         ctx.begin_case(case);
         let mut rng = ctx.rng(case);
         let f = function(&mut rng);
+        // equal values hash equally (functions / parameters / known values are used as map keys): the same
+        // value created at run time, from a static name, re-read from its CBOR
+        {
+            use std::hash::{Hash, Hasher};
+            fn h<T: Hash>(x: &T) -> u64 {
+                let mut s = std::collections::hash_map::DefaultHasher::new();
+                x.hash(&mut s);
+                s.finish()
+            }
+            ctx.count("eq_hash_contract_checks");
+            let mut fs: Vec<Function> = vec![f.clone()];
+            if let Ok(back) = Function::try_from(dcbor::CBOR::from(f.clone())) {
+                fs.push(back);
+            }
+            for name in ["staticFn", "add", "2"] {
+                fs.push(Function::new_static_named(name));
+                fs.push(Function::new_named(name));
+            }
+            fs.push(Function::new_known(1, None));
+            fs.push(Function::new_with_static_name(1, "one"));
+            for a in &fs {
+                for b in &fs {
+                    if a == b && h(a) != h(b) {
+                        ctx.violation("eq-hash/function", &format!("{:?} == {:?} but their hashes differ", a, b), J::Null);
+                    }
+                }
+            }
+            let mut ps: Vec<Parameter> = vec![parameter(&mut rng)];
+            for name in ["staticParam", "lhs", "7"] {
+                ps.push(Parameter::new_static_named(name));
+                ps.push(Parameter::new_named(name));
+            }
+            ps.push(Parameter::new_known(2, None));
+            ps.push(Parameter::new_with_static_name(2, "two"));
+            for a in &ps {
+                for b in &ps {
+                    if a == b && h(a) != h(b) {
+                        ctx.violation("eq-hash/parameter", &format!("{:?} == {:?} but their hashes differ", a, b), J::Null);
+                    }
+                }
+            }
+            let ks = [KnownValue::new(3), KnownValue::new_with_static_name(3, "three"), KnownValue::new_with_name(3u64, "drei".to_string()), KnownValue::new(4)];
+            for a in &ks {
+                for b in &ks {
+                    if a == b && h(a) != h(b) {
+                        ctx.violation("eq-hash/known-value", &format!("{:?} == {:?} but their hashes differ", a, b), J::Null);
+                    }
+                }
+            }
+        }
         let np = rng.below(7);
         let mut expr = Expression::new(f.clone());
         let mut params: Vec<Parameter> = Vec::new();
@@ -233,8 +283,23 @@ pub fn run(ctx: &mut Ctx) {
         ctx.count("requests");
         let nt = note(&mut rng);
         let dt = date(&mut rng, ctx);
-        let mut req = if rng.chance(1, 2) {
+        let mut req = if rng.chance(1, 3) {
             Request::new_with_body(expr.clone(), id).with_note(nt.clone())
+        } else if rng.chance(1, 2) {
+            // note (and date) first, the parameters afterwards: the order of the builder calls does not matter
+            ctx.count("requests_metadata_before_parameters");
+            let mut r = Request::new(f.clone(), id).with_note(nt.clone());
+            if let Some(d) = &dt {
+                r = r.with_date(d);
+            }
+            for a in ee.assertions() {
+                if let (Some(pp), Some(oo)) = (a.as_predicate(), a.as_object()) {
+                    if let Ok(par) = pp.try_leaf().and_then(Parameter::try_from) {
+                        r = if rng.chance(1, 3) { r.with_optional_parameter(par, Some(oo)) } else { r.with_parameter(par, oo) };
+                    }
+                }
+            }
+            r
         } else {
             // the same request assembled through Request::new + with_parameter
             let mut r = Request::new(f.clone(), id);
